@@ -121,6 +121,18 @@ func sectionEnd(manifest []byte) int {
 
 func splitManifest(manifest []byte) ([][]byte, bool) {
 	var malformed bool
+	// A CR on its own ends a line too (JAR specification: newline is CR LF, LF
+	// or CR). Read it as one; the manifest then gets rewritten with proper
+	// endings like any other whose line endings need repair.
+	for i := 0; i < len(manifest); i++ {
+		if manifest[i] == '\r' && (i+1 == len(manifest) || manifest[i+1] != '\n') {
+			if !malformed {
+				manifest = append([]byte(nil), manifest...)
+				malformed = true
+			}
+			manifest[i] = '\n'
+		}
+	}
 	sections := make([][]byte, 0)
 	for len(manifest) != 0 {
 		// (line endings may differ from section to section: take whichever
